@@ -52,6 +52,20 @@ def run(ctx):
     def vec(prefix, n):
         return Vector(_syms(prefix, n), C)
 
+    # history: the same component tuples have already been through every operation in a cylindrical, a spherical and a second Cartesian
+    # system of this process, so anything the library might remember per component tuple (rather than per vector and system) shows
+    for kind in ("CYLINDRICAL", "SPHERICAL", "CARTESIAN"):
+        other = CoordinateSystem(getattr(CoordinateSystem.System, kind))
+        for n1, n2 in itertools.product(range(4), repeat=2):
+            for pfx in (("a", "b"), ("b", "a"), ("c", "a")):
+                u, v = Vector(_syms(pfx[0], n1), other), Vector(_syms(pfx[1], n2), other)
+                for f in (A.vector_magnitude, A.vector_unit, lambda x: A.scale_vector(k, x), lambda x: A.dot_vectors(x, v), lambda x: A.add_cartesian_vectors(x, v),
+                          lambda x: A.cross_cartesian_vectors(x, v), lambda x: A.project_vector(x, v), lambda x: A.equal_vectors(x, v)):
+                    try:
+                        f(u)
+                    except Exception:
+                        pass
+
     def same(name, lhs_vec, rhs_vec, enc=None, extra=(), key=None, build=None):
         """lhs/rhs: lists of sympy exprs (vector components) or scalars"""
         lc = pad(lhs_vec) if isinstance(lhs_vec, (list, tuple)) else [lhs_vec]
@@ -181,6 +195,41 @@ def run(ctx):
         except Exception as e:
             report("exception" + tag, f"{type(e).__name__}: {e}", B + "law='noexc'\n")
 
+    # every vector-valued result lives in the operands' coordinate system (all operand lengths, also the degenerate ones)
+    for na, nb in lens:
+        a, b = vec("a", na), vec("b", nb)
+        for opn, f in (("add", lambda: A.add_cartesian_vectors(a, b)), ("subtract", lambda: A.subtract_cartesian_vectors(a, b)), ("cross", lambda: A.cross_cartesian_vectors(a, b)),
+                       ("scale", lambda: A.scale_vector(k, a)), ("project", lambda: A.project_vector(a, b)), ("reject", lambda: A.reject_cartesian_vector(a, b)),
+                       ("unit", lambda: A.vector_unit(a)), ("add3", lambda: A.add_cartesian_vectors(a, b, a))):
+            nm = f"result_system[{opn},{na},{nb}]"
+            try:
+                res = f()
+            except Exception:
+                ctx.ob(nm, "discharged", nontrivial=False)  # whether it may raise is the business of the other obligations
+                continue
+            if res.coordinate_system is C:
+                ctx.ob(nm, "discharged", nontrivial=False)
+            else:
+                report(nm, f"the result of {opn} is not in the operands' coordinate system", f"na,nb={na},{nb}\nlaw='result_system'\n", {})
+    # no operation modifies its operands (vectors are mutable objects; results must be new ones)
+    for na, nb in ((3, 3), (2, 3), (3, 1), (1, 1)):
+        a, b = vec("a", na), vec("b", nb)
+        before = (list(a.components), list(b.components))
+        for opn, f in (("add", A.add_cartesian_vectors), ("subtract", A.subtract_cartesian_vectors), ("dot", A.dot_vectors), ("cross", A.cross_cartesian_vectors),
+                       ("scale", lambda x, y: A.scale_vector(k, x)), ("magnitude", lambda x, y: A.vector_magnitude(x)), ("project", A.project_vector),
+                       ("reject", A.reject_cartesian_vector), ("unit", lambda x, y: A.vector_unit(x)), ("equal", A.equal_vectors)):
+            try:
+                f(a, b)
+            except Exception:
+                pass
+            now = (list(a.components), list(b.components))
+            nm = f"operands_unchanged[{opn},{na},{nb}]"
+            if now == before:
+                ctx.ob(nm, "discharged", nontrivial=False)
+            else:
+                report(nm, f"{opn} changed its operands from {before} to {now}", f"na,nb={na},{nb}\nlaw='operands_unchanged'\n", {})
+                a, b = vec("a", na), vec("b", nb)
+                before = (list(a.components), list(b.components))
     # associativity and bilinearity with three operands
     triples = list(itertools.product(range(4), repeat=3)) if ctx.tier == "thorough" else \
         [(3, 3, 3), (2, 3, 1), (1, 2, 3), (3, 1, 2), (0, 3, 2), (3, 0, 1), (2, 2, 0), (1, 1, 1), (3, 2, 3), (0, 0, 0)]
@@ -320,6 +369,14 @@ for attempt in range(40 if not vals else 1):
     k = sp.Rational(vals["k"]) if vals and "k" in vals else sp.Rational(3, 2)
     l = sp.Rational(vals["l"]) if vals and "l" in vals else sp.Rational(-2, 3)
     pa, pb, pc = pad(a.components), pad(b.components), pad(c.components)
+    # history: the same component tuples in other coordinate systems first
+    for kind in ("CYLINDRICAL", "SPHERICAL", "CARTESIAN"):
+        O = CoordinateSystem(getattr(CoordinateSystem.System, kind))
+        for u in (a, b, c):
+            uo = Vector(list(u.components), O)
+            for f in (A.vector_magnitude, A.vector_unit, lambda x: A.scale_vector(k, x), lambda x: A.dot_vectors(x, x), lambda x: A.add_cartesian_vectors(x, x)):
+                try: f(uo)
+                except Exception: pass
     dot = lambda u, v: sum(x*y for x, y in zip(u, v))
     crs = lambda u, v: [u[1]*v[2]-u[2]*v[1], u[2]*v[0]-u[0]*v[2], u[0]*v[1]-u[1]*v[0]]
     try:
@@ -343,6 +400,22 @@ for attempt in range(40 if not vals else 1):
             if dot(pb, pb) == 0: continue
             pr = [dot(pa, pb)/dot(pb, pb)*x for x in pb]
             ok = vclose(A.project_vector(a, b).components, pr) and vclose(A.reject_cartesian_vector(a, b).components, [x-y for x, y in zip(pa, pr)])
+        elif law == 'result_system':
+            ok = True
+            for f in (lambda: A.add_cartesian_vectors(a, b), lambda: A.subtract_cartesian_vectors(a, b), lambda: A.cross_cartesian_vectors(a, b), lambda: A.scale_vector(k, a),
+                      lambda: A.project_vector(a, b), lambda: A.reject_cartesian_vector(a, b), lambda: A.vector_unit(a), lambda: A.add_cartesian_vectors(a, b, a)):
+                try: res = f()
+                except Exception: continue
+                if res.coordinate_system is not C:
+                    print("result in", res.coordinate_system, "operands in", C); ok = False
+        elif law == 'operands_unchanged':
+            import copy
+            ca, cb = list(a.components), list(b.components)
+            for f in (A.add_cartesian_vectors, A.subtract_cartesian_vectors, A.dot_vectors, A.cross_cartesian_vectors, lambda x, y: A.scale_vector(k, x),
+                      lambda x, y: A.vector_magnitude(x), A.project_vector, A.reject_cartesian_vector, lambda x, y: A.vector_unit(x), A.equal_vectors):
+                try: f(a, b)
+                except Exception: pass
+            ok = list(a.components) == ca and list(b.components) == cb
         elif law == 'mag_sq_complex':
             vc = Vector([x + sp.I * sp.Rational(j + 2, 3) for j, x in enumerate(a.components)], C)
             d_ = sp.N(sp.expand(A.vector_magnitude(vc)**2 - A.dot_vectors(vc, vc)), 30)
@@ -374,8 +447,15 @@ for attempt in range(40 if not vals else 1):
             ok = A.equal_vectors(va, Vector(comps, C)) == truth
         else:
             # 'noexc': any of the operations raising on valid Cartesian input
-            A.add_cartesian_vectors(a, b); A.subtract_cartesian_vectors(a, b); A.dot_vectors(a, b); A.cross_cartesian_vectors(a, b); A.vector_magnitude(a)
+            A.add_cartesian_vectors(a, b); A.subtract_cartesian_vectors(a, b); A.dot_vectors(a, b); cr_ = A.cross_cartesian_vectors(a, b); A.vector_magnitude(a)
             A.scale_vector(k, a)
+            # results are operands of further operations
+            A.dot_vectors(cr_, a); A.dot_vectors(cr_, b); A.add_cartesian_vectors(cr_, a); A.cross_cartesian_vectors(A.scale_vector(k, a), b); A.vector_magnitude(cr_)
+            A.add_cartesian_vectors(A.subtract_cartesian_vectors(a, b), b); A.dot_vectors(A.scale_vector(k, a), b)
+            if dot(pb, pb) != 0:
+                pr_ = A.project_vector(a, b); rj_ = A.reject_cartesian_vector(a, b); A.add_cartesian_vectors(pr_, rj_); A.dot_vectors(rj_, b); A.cross_cartesian_vectors(pr_, b)
+            if dot(pa, pa) != 0:
+                A.vector_magnitude(A.vector_unit(a))
             if law == 'noexc3':
                 A.add_cartesian_vectors(a, b, c); A.subtract_cartesian_vectors(a, b, c)
             ok = True
